@@ -281,7 +281,7 @@ class AST:
             i = n.get('id')
             if i is not None:
                 old = byid.get(i)
-                if old is None or ('inner' in n and 'inner' not in old):
+                if old is None or len(n.get('inner') or ()) > len(old.get('inner') or ()):
                     byid[i] = n
                     parent[i] = p
             inner = n.get('inner')
@@ -474,6 +474,8 @@ class Translator:
         self.const_cache = {}
         self._ret_cache = {}
         self._merged = {}
+        self._ret_hint = {}
+        self.hidden_vars = {}
         self._scan()
 
     # ---------------------------------------------------------------- scanning
@@ -504,7 +506,7 @@ class Translator:
                     self.enums.setdefault(norm_type_string(ast.qualname(n)), n)
             elif k in ('TypeAliasDecl', 'TypedefDecl'):
                 p = ast.par(n)
-                if p is not None and p.get('kind') in ('NamespaceDecl', 'TranslationUnitDecl') + RECORD_KINDS:
+                if p is not None and p.get('kind') in ('NamespaceDecl', 'TranslationUnitDecl') + RECORD_KINDS and 'dependent' not in str(n.get('type', {}).get('qualType', '')):
                     if not self._in_template_pattern(n):
                         q = norm_type_string(ast.qualname(n))
                         self.galias.setdefault(q, n.get('type'))
@@ -602,6 +604,14 @@ class Translator:
 
     def named(self, name, fctx, node, scope=None):
         name = norm_type_string(name)
+        self._depth = getattr(self, '_depth', 0) + 1
+        try:
+            if self._depth > 60: fail('type resolution recursion on %r' % name, node)
+            return self._named(name, fctx, node, scope)
+        finally:
+            self._depth -= 1
+
+    def _named(self, name, fctx, node, scope=None):
         if name in BUILTIN:
             c = BUILTIN[name]; return CT('builtin', c=c, short=BUILTIN_SHORT.get(c, sanitize(c)))
         # lambda closure
@@ -633,6 +643,8 @@ class Translator:
                 fail('ambiguous template spec %s (%d candidates)' % (name, len(cands)), node)
         if name in self.enums:
             return self.enum_ct(self.enums[name])
+        r = self._suffix_lookup(name, base, args, fctx, node, scope)
+        if r is not None: return r
         # aliases: local, then record scope, then global
         if fctx is not None and name in fctx.aliases and fctx.aliases[name] is not None:
             return self.ctype(fctx.aliases[name], fctx, node, scope)
@@ -662,6 +674,61 @@ class Translator:
                         if q in self.records: return self.record_ct(self.records[q], fctx)
                     cur = self.ast.par(cur)
         fail('unknown type name %r' % name, node)
+
+    def _suffix_index(self):
+        if hasattr(self, '_sfx'): return self._sfx
+        rec = {}; tm = {}; al = {}
+        for q, d in self.records.items():
+            b, a = split_template(q)
+            if a is None: rec.setdefault(b.split('::')[-1], []).append((q, d))
+        for b, lst in self.templ.items():
+            tm.setdefault(b.split('::')[-1], []).append((b, lst))
+        for q, t in self.galias.items():
+            al.setdefault(q.split('::')[-1], []).append((q, t))
+        self._sfx = (rec, tm, al)
+        return self._sfx
+
+    def _same_arg(self, want, have, fctx, node, scope):
+        if want == have: return True
+        if re.match(r'^-?\d+$', want) or re.match(r'^-?\d+$', have) or want in ('true', 'false') or have in ('true', 'false'):
+            return want == have
+        try:
+            a = self.ctype_str(want, fctx, node, scope); b = self.ctype_str(have, fctx, node, scope)
+        except Unsupported:
+            return False
+        return self._ct_equal(a, b)
+
+    def _ct_equal(self, a, b):
+        if a is b: return True
+        if a.kind != b.kind: return False
+        if a.kind in ('builtin', 'enum'): return a.c == b.c
+        if a.kind == 'struct': return a.c == b.c
+        if a.kind == 'ptr': return self._ct_equal(a.elem, b.elem)
+        if a.kind == 'array': return str(a.size) == str(b.size) and self._ct_equal(a.elem, b.elem)
+        return False
+
+    def _suffix_lookup(self, name, base, args, fctx, node, scope):
+        rec, tm, al = self._suffix_index()
+        last = base.split('::')[-1]
+        def sfx_ok(full, part):
+            return full == part or full.endswith('::' + part)
+        if args is None:
+            hits = [(q, d) for (q, d) in rec.get(last, []) if sfx_ok(q, name)]
+            if len(hits) == 1: return self.record_ct(hits[0][1], fctx)
+            ah = [(q, t) for (q, t) in al.get(last, []) if sfx_ok(q, name)]
+            if len(ah) == 1: return self.ctype(ah[0][1], fctx, node, scope)
+            return None
+        cands = []
+        for b, lst in tm.get(last, []):
+            if not sfx_ok(b, base): continue
+            for (a, d) in lst:
+                if len(a) < len(args): continue
+                if all(self._same_arg(w, h, fctx, node, scope) for w, h in zip(args, a)):
+                    cands.append((a, d))
+        exact = [d for (a, d) in cands if len(a) == len(args)]
+        if len(exact) == 1: return self.record_ct(exact[0], fctx)
+        if not exact and len(cands) == 1: return self.record_ct(cands[0][1], fctx)
+        return None
 
     def _last_scope_sep(self, name):
         depth = 0
@@ -756,6 +823,7 @@ class Translator:
 
     def record_ct(self, decl, fctx=None):
         rid = decl['id']
+        decl = self.ast.byid.get(rid, decl)
         if rid in self.rec_ct: return self.rec_ct[rid]
         q = self.ast.qualname(decl)
         if q.startswith('std::') or q.startswith('__gnu_cxx::'):
@@ -766,9 +834,28 @@ class Translator:
         cname = self.uniq(self.struct_names, short, rid)
         ct = CT('struct', c='struct ' + cname, rec=decl, short=cname)
         self.rec_ct[rid] = ct
-        # fields
+        try:
+            lines = self._record_lines(decl, cname, ct)
+        except Unsupported:
+            del self.rec_ct[rid]
+            raise
+        if not lines:
+            lines.append('  char _empty;')
+        is_union = ct.size == 'union'
+        kw = 'union' if is_union else 'struct'
+        if is_union: ct.c = 'union ' + cname
+        text = '/* %s */\n%s %s {\n%s\n};\n' % (norm_type_string(q), kw, cname, '\n'.join(lines))
+        self.struct_defs.append(text)
+        ct.model = None
+        return ct
+
+    def _record_lines(self, decl, cname, ct):
         lines = []
         rctx = FCtx(decl, cname)
+        enc = self.enclosing_fn(decl)
+        if enc is not None:
+            if enc['id'] in self.lambda_ctx: rctx.lambdas.update(self.lambda_ctx[enc['id']])
+            self._collect_aliases(enc, rctx)
         nb = 0
         for b in decl.get('bases', []) or []:
             bt = self.ctype(b.get('type'), rctx, decl)
@@ -777,24 +864,29 @@ class Translator:
             nb += 1
         nf = 0
         is_union = decl.get('tagUsed') == 'union'
+        ct.size = 'union' if is_union else None
+        cap_inits = None
+        lam = self.ast.par(decl)
+        if lam is not None and lam.get('kind') == 'LambdaExpr':
+            cap_inits = (lam.get('inner', []) or [])[1:-1]
         for c in decl.get('inner', []) or []:
             if c.get('kind') == 'FieldDecl':
                 fname = c.get('name') or ('_f%d' % nf)
                 self.field_names[c['id']] = fname
-                ft = self.ctype(c.get('type'), rctx, c)
+                try:
+                    ft = self.ctype(c.get('type'), rctx, c)
+                except Unsupported:
+                    if cap_inits is None or nf >= len(cap_inits): raise
+                    # closure field: type of the captured entity (+ reference)
+                    it = self.ctype(cap_inits[nf].get('type'), rctx, c)
+                    isref = (c.get('type', {}).get('qualType', '').rstrip().endswith('&'))
+                    ft = CT('ptr', elem=it, short='r' + it.short, ref=True) if isref else it
                 lines.append('  %s;' % ft.decl(fname))
                 nf += 1
             elif c.get('kind') in RECORD_KINDS and not c.get('name') and c.get('completeDefinition') and not c.get('isImplicit'):
                 # anonymous struct/union member: emitted through its FieldDecl (which follows); register
                 self.records.setdefault('(anon)%s' % c['id'], c)
-        if not lines:
-            lines.append('  char _empty;')
-        kw = 'union' if is_union else 'struct'
-        if is_union: ct.c = 'union ' + cname
-        text = '/* %s */\n%s %s {\n%s\n};\n' % (norm_type_string(q), kw, cname, '\n'.join(lines))
-        self.struct_defs.append(text)
-        ct.model = None
-        return ct
+        return lines
 
     def record_is_empty(self, ct):
         if ct.kind != 'struct': return False
@@ -810,6 +902,7 @@ class Translator:
         key = base + '<' + ', '.join(args) + '>'
         if key in self.rec_ct: return self.rec_ct[key]
         if base == 'std::optional':
+            if len(args) != 1: fail('std::optional without arguments: ' + key, node)
             e = self.ctype_str(args[0], fctx, node)
             cname = self.uniq(self.struct_names, 'opt_' + e.short, key)
             ct = CT('struct', c='struct ' + cname, short=cname, model='optional', margs=[e])
@@ -828,6 +921,7 @@ class Translator:
             self.struct_defs.append('/* model of %s */\nstruct %s {\n%s\n};\n' % (key, cname, '\n'.join(fl)))
             return ct
         if base == 'std::array':
+            if len(args) != 2: fail('std::array without arguments: ' + key, node)
             e = self.ctype_str(args[0], fctx, node); n = int(args[1])
             cname = self.uniq(self.struct_names, 'arr_%s_%d' % (e.short, n), key)
             ct = CT('struct', c='struct ' + cname, short=cname, model='array', margs=[e, n])
@@ -950,9 +1044,9 @@ class Translator:
             elif k == 'LambdaExpr':
                 inner = n.get('inner', [])
                 if inner and inner[0].get('kind') == 'CXXRecordDecl':
-                    fctx.lambdas.setdefault(self._lambda_loc(n), inner[0])
-                # aliases inside nested lambda bodies belong to them; still descend for nested lambda records
-                stack.extend(n.get('inner', []) or [])
+                    fctx.lambdas[self._lambda_loc(n)] = inner[0]
+                # nested lambdas (their closure types, aliases) belong to the nested operator(); capture inits are ours
+                stack.extend(inner[1:-1])
                 continue
             elif k in RECORD_KINDS and n.get('name') and n.get('completeDefinition'):
                 fctx.aliases.setdefault(n['name'], None)
@@ -1143,6 +1237,7 @@ class Translator:
         if len(fields) != len(inits):
             fail('lambda capture/field mismatch (%d fields, %d inits)' % (len(fields), len(inits)), lam)
         fctx.captures = {}
+        by_field = []
         self.record_ct(rec, fctx)
         for f, e in zip(fields, inits):
             fname = self.field_names[f['id']]
@@ -1155,6 +1250,27 @@ class Translator:
                 fail('cannot determine captured variable', e)
             else:
                 fctx.captures[tgt] = ('(*self->%s)' % fname) if isref else ('self->%s' % fname)
+                by_field.append((tgt, fctx.captures[tgt]))
+        # init-captures ([x = expr]): the body refers to a VarDecl clang does not dump; match by name / uniqueness
+        body = self.body_of(fctx.decl) or (lam.get('inner', []) or [])[-1]
+        unknown = []
+        stack = [body]
+        refd = set()
+        while stack:
+            x = stack.pop()
+            if x.get('kind') == 'DeclRefExpr':
+                r = x.get('referencedDecl', {})
+                refd.add(r.get('id'))
+                if r.get('kind') == 'VarDecl' and r.get('id') not in self.ast.byid and r.get('id') not in [u[0] for u in unknown]:
+                    unknown.append((r.get('id'), r.get('name')))
+            stack.extend(x.get('inner', []) or [])
+        for uid, unm in unknown:
+            cands = [(t, c) for (t, c) in by_field if t not in refd and (self.ast.byid.get(t) or {}).get('name') == unm]
+            if len(cands) != 1:
+                cands = [(t, c) for (t, c) in by_field if t not in refd]
+            if len(cands) != 1:
+                fail('cannot match init-capture %s to a closure field' % unm, lam)
+            fctx.captures[uid] = cands[0][1]
 
     def _capture_target(self, e):
         stack = [e]
@@ -1433,6 +1549,7 @@ class Translator:
         else:
             out.append(pad + '%s = %s;' % (ct.decl(hid), self.ex(init, fctx)))
         # bindings: BindingDecl nodes; each has an inner expr (for tuple-like: a VarDecl holding the get<>() call)
+        nb = 0
         for b in inner[1:]:
             if b.get('kind') != 'BindingDecl': continue
             bi = b.get('inner', [])
@@ -1444,8 +1561,18 @@ class Translator:
             if hv is not None:
                 out.extend(self.var_decl(hv, fctx, ind))
                 b['_binding_var'] = hv
+            elif expr.get('kind') == 'DeclRefExpr' and expr.get('referencedDecl', {}).get('kind') == 'VarDecl' \
+                    and expr['referencedDecl'].get('id') not in self.ast.byid:
+                # tuple-like binding: clang does not dump the holding variable (= get<i>(e)); only modelled std types
+                bct = ct.elem if ct.kind == 'ptr' else ct
+                base = ('(*%s)' % hid) if ct.kind == 'ptr' else hid
+                if bct.kind == 'struct' and bct.model == 'tuple': b['_binding_cexpr'] = '%s.e%d' % (base, nb)
+                elif bct.kind == 'struct' and bct.model == 'array': b['_binding_cexpr'] = '%s._M_elems[%d]' % (base, nb)
+                else: fail('tuple-like structured binding on non-modelled type', d)
+                self.hidden_vars[expr['referencedDecl']['id']] = b['_binding_cexpr']
             else:
                 b['_binding_expr'] = expr
+            nb += 1
         return out
 
     def strip_wrappers(self, n):
@@ -1532,6 +1659,17 @@ class Translator:
     def ex_CXXNoexceptExpr(self, n, fctx):
         return '1' if n.get('value') in (True, 'true') else '0'
 
+    def ex_SizeOfPackExpr(self, n, fctx):
+        nm = n.get('name')
+        cnt = 0
+        cur = fctx.decl
+        while cur is not None and cnt == 0:
+            if cur.get('kind') in DECL_FN:
+                cnt = sum(1 for c in cur.get('inner', []) or [] if c.get('kind') == 'ParmVarDecl' and c.get('name') == nm)
+            cur = self.enclosing_fn(cur)
+        if cnt == 0: fail('cannot determine size of pack %s' % nm, n)
+        return self.lit(cnt, self.ctype(n.get('type'), fctx, n))
+
     def ex_CXXThisExpr(self, n, fctx):
         if fctx.captures is not None:
             if fctx.this_capture is None: fail('this used in lambda without capture', n)
@@ -1614,9 +1752,10 @@ class Translator:
         rk = r.get('kind'); rid = r.get('id')
         if rk in ('ParmVarDecl', 'VarDecl', 'VarTemplateSpecializationDecl', 'DecompositionDecl'):
             d = self.ast.byid.get(rid)
-            if d is None: fail('unknown referenced decl', n)
             if fctx.captures is not None and rid in fctx.captures:
                 return fctx.captures[rid]
+            if d is None and rid in self.hidden_vars: return self.hidden_vars[rid]
+            if d is None: fail('unknown referenced decl', n)
             if rk == 'ParmVarDecl' or self._is_local(d):
                 nm = d.get('_cname') or d.get('name')
                 if rid in fctx.skip_vars:
@@ -1634,11 +1773,15 @@ class Translator:
             d = self.ast.byid.get(rid)
             return self.enum_const(d, fctx, n)
         if rk == 'BindingDecl':
+            if fctx.captures is not None and rid in fctx.captures:
+                return fctx.captures[rid]
             b = self.ast.byid.get(rid)
             if b.get('_binding_var') is not None:
                 hv = b['_binding_var']
                 nm = hv.get('name')
                 return '(*%s)' % nm if self.is_ref_type(hv.get('type')) else nm
+            if b.get('_binding_cexpr') is not None:
+                return b['_binding_cexpr']
             if b.get('_binding_expr') is not None:
                 return self.ex(b['_binding_expr'], fctx)
             fail('binding not yet declared', n)
@@ -1899,7 +2042,10 @@ class Translator:
         out = []
         for i, a in enumerate(args):
             if a.get('kind') == 'CXXDefaultArgExpr':
-                fail('default argument', a)
+                if i >= len(ps): fail('default argument without parameter', a)
+                dflt = [x for x in ps[i].get('inner', []) or [] if not x.get('kind', '').endswith('Attr')]
+                if not dflt: fail('default argument expression not found', a)
+                a = dflt[-1]
             if i < len(ps) and self.is_ref_type(ps[i].get('type')):
                 out.append(self.addr(a, fctx))
             else:
@@ -2097,6 +2243,10 @@ class Translator:
         return None, x
 
     def returns_ref(self, callee, n):
+        did = callee['id']
+        vc = n.get('valueCategory')
+        if vc is not None and did not in self._ret_cache:
+            self._ret_hint.setdefault(did, vc in ('lvalue', 'xvalue'))
         return self.ret_info(callee)[1]
 
     def ret_info(self, decl, fctx=None):
@@ -2129,6 +2279,17 @@ class Translator:
                     if e.get('valueCategory') in ('lvalue', 'xvalue') and rs == 'decltype(auto)':
                         ref = True
                         ret = CT('ptr', elem=ret, short='r' + ret.short, ref=True)
+        hint = self._ret_hint.get(did)
+        if hint is not None and hint != ref and kind not in ('CXXConstructorDecl', 'CXXDestructorDecl'):
+            # the call expression's value category is authoritative (lvalue <=> returns a reference)
+            if hint:
+                r = self._first_return(self.body_of(decl))
+                e = r['inner'][0]
+                vt = self.ctype(e.get('type'), fctx, e)
+                ret = CT('ptr', elem=vt, short='r' + vt.short, ref=True); ref = True
+            else:
+                if ret.kind == 'ptr' and ret.ref: ret = ret.elem
+                ref = False
         self._ret_cache[did] = (ret, ref)
         return ret, ref
 
@@ -2232,7 +2393,7 @@ class Translator:
             if len(args) == 1 and len(es) != 1 or (len(args) == 1 and len(es) == 1 and self._same_ct(args[0], rct, fctx)):
                 return self.ex(args[0], fctx)
             if len(args) != len(es): fail('tuple ctor arity', n)
-            return '((%s){%s})' % (rct.c, ', '.join(self.ex(a, fctx) for a in args))
+            return '((%s){%s})' % (rct.c, ', '.join((self.addr(a, fctx) if e.ref else self.ex(a, fctx)) for a, e in zip(args, es)))
         if rct.model == 'array':
             if not args: return '((%s){0})' % rct.c
             if len(args) == 1: return self.ex(args[0], fctx)
@@ -2272,7 +2433,10 @@ class Translator:
             ta = self.ast.targs(callee)
             a = args[0]
             act = self.ctype(a.get('type'), fctx, a)
-            if act.model == 'tuple' and re.match(r'^\d+$', ta[0]): return '%s.e%s' % (self.paren(self.ex(a, fctx)), ta[0])
+            if act.kind == 'ptr' and act.elem.kind == 'struct': act = act.elem
+            if act.model == 'tuple' and re.match(r'^\d+$', ta[0]):
+                r = '%s.e%s' % (self.paren(self.ex(a, fctx)), ta[0])
+                return ('(*%s)' % r) if act.margs[int(ta[0])].ref else r
             if act.model == 'array' and re.match(r'^\d+$', ta[0]): return '%s._M_elems[%s]' % (self.paren(self.ex(a, fctx)), ta[0])
         if q.startswith('std::forward') or q.startswith('std::move'):
             return self.ex(args[0], fctx)
